@@ -44,6 +44,8 @@ class ExprDoc:
                 kind = rng.choice(kinds) if kinds else None
                 if cascade and rng.random() < 0.15:
                     kind = "repoint-local"
+                elif profile == "dynamic" and t in (ge.SLIST, ge.STR, ge.BOOL) and rng.random() < 0.1:
+                    kind = "list-build"
                 g.has_void_path = False
                 prog = g.program(t, kind)
                 src = ge.print_program(prog, rng)
@@ -146,6 +148,21 @@ class ExprDoc:
         raise ValueError(t)
 
     # ---- mapping to generated functions
+    def state_dependent(self, b, states):
+        """-> (v1, v2) two different defined reference values of binding b over `states`, or None if it is state independent there."""
+        seen = []
+        for st in states:
+            try:
+                val, _ = ge.evaluate(b.prog, st, owner=b.target)
+            except ge.Undefined:
+                continue
+            enc = cxxrun.encode_expected(b.t, val)
+            if seen and enc != seen[0]:
+                return seen[0], enc
+            if not seen:
+                seen.append(enc)
+        return None
+
     def resolve_functions(self, header):
         names = set(re.findall(r"\beval(\w+)\(\)", header))
         missing = []
